@@ -300,10 +300,30 @@ def awaited_result_switches(body, call):
     """switches whose subject is the (awaited) result of `call`, `?` applications to it, and
     direct matches. returns (result_switches, q_sites)"""
     def is_res(x):
-        x = peel(x)
-        if isinstance(x, tuple) and x[0] == "await":
-            x = peel(x[1])
-        return isinstance(x, tuple) and x[0] == "call" and x[1] == call.bb
+        return is_result_of(x, call.bb)
     res = body.result_switches(is_res)
     qs = body.q_edges(is_res)
     return res, qs
+
+
+RESULT_ADAPTERS = ("Result::<T, E>::map", "Result::<T, E>::map_err", "Result::<T, E>::inspect", "Result::<T, E>::inspect_err")
+
+
+def is_result_of(x, bb, depth=0):
+    """term x is the (awaited) result of the call at block bb, possibly merged with other results in a local
+    (phi) or passed through Result::map / map_err (which keep Ok/Err-ness)"""
+    if depth > 6:
+        return False
+    x = peel(x)
+    if not isinstance(x, tuple):
+        return False
+    if x[0] == "phi":
+        return any(is_result_of(a, bb, depth + 1) for a in x[1])
+    if x[0] == "await":
+        return is_result_of(x[1], bb, depth + 1)
+    if x[0] == "call":
+        if x[1] == bb:
+            return True
+        if is_call(x, *RESULT_ADAPTERS) and x[3]:
+            return is_result_of(x[3][0], bb, depth + 1)
+    return False
